@@ -2,7 +2,12 @@
 //! scenario scripts against the real `tiny_std::thread::spawn` / `JoinHandle::join` / `Drop`.
 //!
 //! Script (stdin), one batch = the threads that are live together:
-//!   t <id> <ret|panic> <d_us> <class> <join|drop|dropnow> <d2_us>      (id < 64, class 0..14)
+//!   t <id> <ret|panic|panic_e|panic_o|panic_d|panic_m> <d_us> <class> <join|drop|dropnow> <d2_us>      (id < 64, class 0..14)
+//! WHERE the closure panics: `panic` a plain panic!; `panic_e` / `panic_o` / `panic_d` inside an argument of tiny-std's
+//! eprintln! / println! / dbg! (a Display / Debug impl that panics while it is being printed: the thread holds the
+//! library's stderr / stdout print lock at that moment, and the panic handler runs with it held); `panic_m` while holding
+//! guards of its own tiny_std::sync::Mutex and RwLock.  (A thread that dies inside a print macro never releases that print
+//! lock — there is no unwinding — so a script carries at most one panic_e/panic_d and one panic_o thread.)
 //! Result classes: 0 (), 1 u8, 2 u64, 3 [u8;4096], 4 align-64 struct, 5 Box<[u64;3]> (size / alignment / ownership
 //! sweep) and 6 bool, 7 char, 8 core::cmp::Ordering, 9 field-less enum, 10 Option<u32>, 11 Result<u8,u8>,
 //! 12 struct(bool) with a counting destructor: types whose `Option<T>::None` is a NON-zero bit pattern, so that a
@@ -565,7 +570,21 @@ fn token(batch: usize, id: usize) -> u64 {
     (x >> 2) | 1
 }
 
-fn spawn_one<T: Val>(batch: usize, id: usize, panics: bool, d: usize, gate: bool) -> tiny_std::Result<JoinHandle<T>> {
+/// a value that panics while it is being formatted
+struct Boom;
+impl core::fmt::Display for Boom {
+    fn fmt(&self, _: &mut core::fmt::Formatter<'_>) -> core::fmt::Result {
+        panic!("c05probe: scripted panic inside a print argument");
+    }
+}
+impl core::fmt::Debug for Boom {
+    fn fmt(&self, _: &mut core::fmt::Formatter<'_>) -> core::fmt::Result {
+        panic!("c05probe: scripted panic inside a print argument");
+    }
+}
+
+/// panic site: 0 the closure returns, 1 plain panic!, 2 inside eprintln!, 3 inside println!, 4 inside dbg!, 5 holding own lock guards
+fn spawn_one<T: Val>(batch: usize, id: usize, panics: u8, d: usize, gate: bool) -> tiny_std::Result<JoinHandle<T>> {
     let tok = token(batch, id);
     tiny_std::thread::spawn(move || {
         let local = 0u8;
@@ -574,8 +593,23 @@ fn spawn_one<T: Val>(batch: usize, id: usize, panics: bool, d: usize, gate: bool
         sleep_us(d);
         // a plain (non-atomic) memory effect: must be visible to whoever joins this thread
         unsafe { EFFECT.0[id].get().write_volatile(tok) };
-        if panics {
-            mark(b'P', id, 0);
+        if panics != 0 {
+            mark(b'P', id, panics as usize);
+            match panics {
+                2 => tiny_std::eprintln!("{}", Boom),
+                3 => tiny_std::println!("{}", Boom),
+                4 => {
+                    let _ = tiny_std::dbg!(Boom);
+                }
+                5 => {
+                    let m = tiny_std::sync::Mutex::new(0u32);
+                    let rw = tiny_std::sync::RwLock::new(0u32);
+                    let _g = m.lock();
+                    let _w = rw.write();
+                    panic!("c05probe: scripted panic holding lock guards");
+                }
+                _ => {}
+            }
             panic!("c05probe: scripted panic");
         }
         if gate {
@@ -602,7 +636,7 @@ fn join_one<T: Val>(h: JoinHandle<T>) -> Option<u64> {
 #[derive(Clone, Copy)]
 struct Spec {
     id: usize,
-    panics: bool,
+    panics: u8,
     d: usize,
     class: usize,
     action: u8, // b'j' join, b'd' drop, b'n' dropnow
@@ -850,7 +884,7 @@ pub fn main() -> i32 {
     };
     MAIN_TID.store(unsafe { sys4(SYS_GETTID, 0, 0, 0, 0) } as usize, Ordering::Relaxed);
     class_sizes();
-    let mut specs = [Spec { id: 0, panics: false, d: 0, class: 0, action: b'j', d2: 0 }; MAXT];
+    let mut specs = [Spec { id: 0, panics: 0, d: 0, class: 0, action: b'j', d2: 0 }; MAXT];
     let mut n = 0;
     let mut batch = 0;
     for line in script.split(|c| *c == b'\n') {
@@ -867,8 +901,12 @@ pub fn main() -> i32 {
                 let ok = (|| {
                     let id = parse_usize(f[0]?)?;
                     let panics = match f[1]? {
-                        b"ret" => false,
-                        b"panic" => true,
+                        b"ret" => 0u8,
+                        b"panic" => 1,
+                        b"panic_e" => 2,
+                        b"panic_o" => 3,
+                        b"panic_d" => 4,
+                        b"panic_m" => 5,
                         _ => return None,
                     };
                     let d = parse_usize(f[2]?)?;
